@@ -155,13 +155,12 @@ func (r *Run) accessCheck(st *State, fr *Frame, a *Addr, write bool, in ssa.Inst
 	if write {
 		rw = "w"
 	}
-	ord := r.accessOrdinal(fr, in, a.Region)
 	switch gi.Kind {
 	case "frozen":
 		if !write {
 			return
 		}
-		name := fmt.Sprintf("%s/own:%s#%d", e.fnName[fr.Fn], field, ord)
+		name := fmt.Sprintf("%s/own:%s", e.fnName[fr.Fn], field)
 		e.emitWith(st, name, "", nil, False, "write to frozen field "+a.Region+" only before the object is shared", e.posOf(in), []string{"C11"}, nil)
 		return
 	case "owned":
@@ -199,7 +198,7 @@ func (r *Run) accessCheck(st *State, fr *Frame, a *Addr, write bool, in ssa.Inst
 	} else {
 		goal = Or(goals...)
 	}
-	name := fmt.Sprintf("%s/lockset:%s.%s#%d", e.fnName[fr.Fn], field, rw, ord)
+	name := fmt.Sprintf("%s/lockset:%s.%s", e.fnName[fr.Fn], field, rw)
 	text := fmt.Sprintf("%s of %s requires %s held (lockset {%s})", map[bool]string{true: "write", false: "read"}[write], a.Region, strings.Join(gi.Locks, " & "), locksKey(st.Locks))
 	e.emitWith(st, name, "", nil, goal, text, e.posOf(in), []string{"C11"}, nil)
 }
@@ -415,6 +414,15 @@ func (r *Run) release(st *State, fr *Frame, lr LockRef, mode LockMode, in ssa.In
 		e.emitWith(st, name, "", nil, True, "unlock of a lock that is held in this mode", e.posOf(in), []string{"C11"}, nil)
 	}
 	if lr.Class != "" && mode == LockW {
+		// ghost updates attached to the release of the action lock
+		top := st.Frames[0]
+		if b := e.cs.Funcs[e.fnName[top.Fn]]; b != nil && r.isRecvLock(st, lr) {
+			if act := b.First("action"); act != nil && len(act.Words) > 0 && act.Words[0] == lr.Field {
+				for _, up := range b.All("update-at-release") {
+					r.applyUpdateAtExit(st, top, up, nil)
+				}
+			}
+		}
 		r.assertInvariants(st, fr, lr.Owner, lr.Field, lr.Base, in, "release")
 	}
 	if idx >= 0 {
